@@ -244,6 +244,28 @@ def wrapper_nth_stream(rng, pid):
     return cases
 
 
+def phase_stream(rng, pid):
+    """two threads over a wrapped iterator of every hint kind, scheduled in four phases T0^a T1^b T0^c T1^d (then round-robin):
+    one thread is left at every point of its pull -- also right after it has handed the turn over -- while the other advances
+    into the wrapped `next()`"""
+    cases = []
+    i = 0
+    progs = [[["next", "next"], ["next", "next"]], [["next", "hasmore"], ["chunk 2 all", "next"]], [["next", "next"], ["bufnew 2", "bufnext all"]]]
+    for hint in ("inexact", "unbounded", "exact"):
+        for pr in progs:
+            for a in range(3, 11):
+                for b in range(3, 10):
+                    for cc in (0, 1, 2):
+                        for d in (0, 2):
+                            c = make_source(rng, "%s-ph%d" % (pid, i), "iter", 4, hint=hint)
+                            c.threads = [list(t) for t in pr]
+                            c.sched = [0] * a + [1] * b + [0] * cc + [1] * d
+                            c.owner = "drop"
+                            cases.append(c)
+                            i += 1
+    return cases
+
+
 def zst_stream(rng, pid):
     """zero-sized element types: `ptr.add(i) == ptr`, slices of any length occupy no memory"""
     cases = []
@@ -663,6 +685,7 @@ def stream_for0(pid, tier, seed):
         # length queries on an exact-size source while another thread is inside the wrapped iterator
         qprogs = [[["next", "next"], ["len", "hasmore", "len"]], [["bufnew 2", "bufnext all"], ["hasmore", "len", "hasmore"]]]
         cases += exhaustive("C07-q2", small_bases(rng, qprogs, ["iter", "iterref"]), 2, 9 if not big else 12)
+        cases += phase_stream(rng, pid)
         return cases
     if pid in ("C08", "C15"):
         prof = dict(kinds=["vec", "array", "iter"], skip=True, lens=[0, 1, 2, 3, 5, 8], drain=0.3)
